@@ -23,6 +23,8 @@ A file is assembled from pieces, then parsed:
 * `gget …`    the same; for a well-formed document the documented answer is compared (` SPECDIFF`)
 * `life SEC KEY`  life cycle: unparsed object, NULL object, first parse, second parse after the file changed
               on disk, object for a path that does not exist
+* `lifec SEC KEY` the current file parsed while the parser's `fclose` fails (scripted), parsed again after the file
+              changed on disk, a path that does not exist with the failure armed; `fc=` / `w=` count the `fclose` calls / warning lines of each parse
 * `chomp X`, `strdup X`, `strtod X`, `strtok STR D1 [D2 …]`, `strtokb STR DELIM`   the `pstring.c` entry points
               (`chomp`, `strtok`: ` SPECDIFF` when `IniSpec.trim` / `IniSpec.tokens` say something else)
 -/
@@ -187,10 +189,12 @@ def starFields (dbl : Bool) (line : String) : String :=
     if dbl && t.startsWith "d=" then "d=*"
     else if t.startsWith "n=" then "n=*/" ++ ((t.splitOn "/").getD 1 "") else t)
 
-def countsOf (h : Option Handle) : String :=
+def countsCore (h : Option Handle) : String :=
   let secs := apiSections h
   let nk := (secs.map fun s => (apiKeys h (some s)).length).foldl (· + ·) 0
-  " S=" ++ toString secs.length ++ " K=" ++ toString nk ++ " "
+  "S=" ++ toString secs.length ++ " K=" ++ toString nk
+
+def countsOf (h : Option Handle) : String := " " ++ countsCore h ++ " "
 
 def errName : Option ParseError → String
   | none => "none"
@@ -231,6 +235,27 @@ def lifeLine (content : Bytes) (sec key : Option Bytes) : String :=
   let out := out ++ " M r=" ++ b01 r ++ " err=" ++ errName e ++ " p=" ++ b01 (fileIsParsed m2)
   out ++ countsOf m2 ++ apiGetters m2 sec key (some [109]) (-1) true 2.5
 
+/-- `lifec`: the parse whose `fclose` fails, the second parse after the file changed, then objects for the other outcomes of
+`fopen` with the failure armed: `m` a missing file (ENOENT), `e` a path through a regular file (ENOTDIR), `l` a name that is too
+long, `d` a directory (opens, `fgets` reads nothing: an empty file) -/
+def lifecLine (content : Bytes) (sec key : Option Bytes) : String :=
+  let path : Bytes := [102]
+  let fsOf (c : Bytes) : Bytes → Except Bool Bytes := fun p =>
+    if p == path then .ok c else if p == [100] then .ok [] else if p == [109] then .error true else .error false
+  let fs1 := fsOf content
+  let fs2 := fsOf otherContent
+  let seg (tag : String) (res : (Option Handle × Bool × Option ParseError) × ParseEffects) : String :=
+    let ((h, r, e), fx) := res
+    tag ++ " r=" ++ b01 r ++ " err=" ++ errName e ++ " p=" ++ b01 (fileIsParsed h) ++ " fc=" ++ toString fx.fcloseCalls
+      ++ " w=" ++ toString fx.warnings
+  let r1 := fileParseClose fs1 false (fileNew (some path))
+  let out := seg "C" r1 ++ countsOf r1.1.1 ++ apiGetters r1.1.1 sec key (some [99]) 7 true 0.5
+  let r2 := fileParseClose fs2 false r1.1.1
+  let out := out ++ " " ++ seg "Q" r2 ++ countsOf r2.1.1 ++ apiGetters r2.1.1 sec key (some [99]) 7 true 0.5
+  [("X", [109]), ("E", [101]), ("L", [108]), ("D", [100])].foldl (fun (out : String) (tp : String × Bytes) =>
+    let r := fileParseClose fs2 false (fileNew (some tp.2))
+    out ++ " " ++ seg tp.1 r ++ " " ++ countsCore r.1.1) out
+
 /-- the call sequence of the harness: call `i` uses delimiter set `min i (nd - 1)` -/
 def strtokCalls (delims : Array (Option Bytes)) : Nat → Nat → Option Bytes → Bytes → String → String
   | 0, _, _, _, out => out
@@ -266,6 +291,10 @@ def step2 (s : St) (toks : List String) : Option (IO Unit) :=
   | ["life", sec, key] =>
     match argOf sec, argOf key with
     | some sec, some key => some (IO.println (lifeLine s.bytes sec key))
+    | _, _ => some (IO.println "bad-op")
+  | ["lifec", sec, key] =>
+    match argOf sec, argOf key with
+    | some sec, some key => some (IO.println (lifecLine s.bytes sec key))
     | _, _ => some (IO.println "bad-op")
   | ["chomp", x] =>
     match argOf x with
